@@ -20,6 +20,11 @@ CLAIMS = {
   note="Trusted: Lean kernel; axioms propext, Quot.sound, Classical.choice; the discovery worklist is modelled executably and checked by correspondence only (no theorem about reachability); file selection (fs.Glob, go/build/constraint, package-clause conflict) is exercised by the oracle, not proved; that packages are compiled and run in list order is checked by the marker oracle.",
   technique="Lean 4 proof (induction over the ordering loop; acyclicity as a rank function; completeness via minimal-rank element) + model/implementation correspondence on generated file trees + marker-line oracle",
   ref="7/C15"),
+ "C16": dict(
+  text="Machine-checked (Lean 4 kernel) for every list of top-level nodes: treeSort (stable sort by the kind priorities regenerated from tree.go) equals the concatenation, highest priority first, of the nodes of each priority in source order (sortDesc_blocks, sort_closed_form); hence types/consts/methods/functions are hoisted in that order before all other nodes and init goes last (table_hoists, levels_desc, prio_mem_levels), every class - in particular variable initialisers and statements - keeps its source order (sort_keeps_class_order), lists that differ by a permutation of their hoistable declarations sort to lists that differ only inside those blocks (sort_respects_permutation) and the output is determined by the per-class sub-lists (sort_determined_by_classes). PARTIAL: that two declarations inside one hoisted block commute at run time (distinct global slots, interned indexes renamed) is not a Lean theorem; it is checked by search: generated packages must print the same under random permutations of their hoistable declarations and random partitions into files.",
+  note="Trusted: Lean kernel; axioms propext, Quot.sound, Classical.choice; sort.SliceStable is assumed stable (the model is stable insertion sort; every stable sort computes the same list) and tied by the VerifTreeSort correspondence; goatx (priority table); joinFiles and the run-time commutation of hoisted declarations are covered by the package-permutation search only; hoistable names that coincide with a builtin (finding N7) are excluded from the generator.",
+  technique="Lean 4 proof (closed form of stable sort by priority, for all lists; table facts by decide) + treeSort correspondence + permutation/partition search on generated packages",
+  ref="7/C16"),
  "C05": dict(
   text="Machine-checked (Lean 4 kernel) for every expression of any size and nesting: goatlang's Pratt parser, with the binding-power table regenerated from symbol.go on this run, reads the text that Go's five-level grammar prints for a tree (with any redundant parentheses) back as exactly that tree (theorems groups_as_go, groups_as_go_ctx; table facts table_ops/table_ok/table_iso/table_order by kernel evaluation on the regenerated table; &^ by andnot_equiv). The hand-written parser model is tied to the real parser by an exhaustive + random tree-for-tree correspondence, and go/parser plus native Go evaluation search for a failing input.",
   note="Trusted: Lean kernel; axioms propext, Quot.sound, Classical.choice only; goatx table extractor; the parser model covers names, integer literals, the 18 binary and 3 prefix operators and parentheses (calls, indexing, selectors, composite literals are not in the model; they bind tighter than every operator and are exercised only by the correspondence run through the real parser); text/scanner tokenisation is trusted; values are checked by search (native Go int32/bool evaluation), not proved here (C04 carries the arithmetic).",
